@@ -54,12 +54,12 @@ Print Assumptions C01_roundtrip_exact.
    (No hypothesis on the zoom options: since /repo adc453b both writers keep at most
     MAX_ZOOM_LEVELS = 10 levels, so write_info's directory stays inside the reserved 304 bytes;
     before that repair the proof needed "at most 10 levels" as a hypothesis - see notes/C01.md.)
-   - input_ok sizes inp : every chromosome's items are contiguous in the input ("sorted" input: one
-                        run per chromosome; implied by the writer's own order check when
-                        allow-out-of-order is off); chromosome names contain no zero byte (the key
-                        is zero padded and the reader trims zeros) and are shorter than 2^32; fewer
-                        than 65536 chromosomes (the chromosome tree is one leaf block with a u16
-                        count); chromosome lengths and value bit patterns are < 2^32 (u32 / f32);
+   - input_ok sizes inp : chromosome names contain no zero byte (the key is zero padded and the
+                        reader trims zeros) and are shorter than 2^32; fewer than 65536 chromosomes
+                        (the chromosome tree is one leaf block with a u16 count); chromosome lengths
+                        and value bit patterns are < 2^32 (u32 / f32).  "One run per chromosome" is
+                        no longer a hypothesis: since /repo 6b10d42 a chromosome whose run reappears
+                        is refused, so acceptance implies it (C01_accepted_one_run_per_chromosome);
    - Nlen bs < 2^64   : file offsets are u64.
    [infl] (the decompressor) is arbitrary: the modelled writer emits uncompressed files
    (uncompress_buf_size = 0), for which the reader never calls it. *)
@@ -102,8 +102,14 @@ Theorem C01_accepted_runs : forall fp o sizes inp bs,
   opts_ok o -> input_ok sizes inp -> Nlen bs < U64 ->
   bw_write fp o sizes inp = Ok bs \/ bw_write_multipass fp o sizes inp = Ok bs ->
   forall c vs, In (c, vs) (runs inp) -> exists len, lookup c sizes = Some len /\ wf_vals len vs /\ vs <> [].
-Proof. intros fp o sizes inp bs Ho Hi Hs. exact (write_accepted fp o sizes inp bs Hi). Qed.
+Proof. intros fp o sizes inp bs Ho Hi Hs. exact (write_accepted fp o sizes inp bs). Qed.
 Print Assumptions C01_accepted_runs.
+
+(* an accepted input has every chromosome in ONE run, whatever the sort mode *)
+Theorem C01_accepted_one_run_per_chromosome : forall fp o sizes inp bs,
+  bw_write fp o sizes inp = Ok bs \/ bw_write_multipass fp o sizes inp = Ok bs -> NoDup (map fst (runs inp)).
+Proof. exact write_grouped. Qed.
+Print Assumptions C01_accepted_one_run_per_chromosome.
 
 (* any range query on the written bytes, for every chromosome that had data: exactly the values
    overlapping [s,e), clipped, in order, bit-identical (header -> chromosome tree -> index search on
@@ -170,15 +176,12 @@ Print Assumptions C01_same_regions.
 (* ---- the same, stated on the input itself (Proofs/BigWigFileInput.v) ----
    vals_of inp c   = the input's values for chromosome c, in input order;
    first_app names = the distinct names in first-appearance order;
-   "one run per chromosome" is either assumed or, when the writer's chromosome-order check is on
-   (o_sort_all, the default), implied by the fact that the input was accepted;
-   input_fields_ok = input_ok without that clause. *)
+   "one run per chromosome" is implied by the fact that the input was accepted. *)
 From BT Require Import Proofs.BigWigFileInput.
 
 Theorem C01_chrom_table_on_input : forall fp o sizes inp bs,
-  opts_ok o -> input_fields_ok sizes inp -> Nlen bs < U64 ->
+  opts_ok o -> input_ok sizes inp -> Nlen bs < U64 ->
   bw_write fp o sizes inp = Ok bs \/ bw_write_multipass fp o sizes inp = Ok bs ->
-  NoDup (map fst (runs inp)) \/ o_sort_all o = true ->
   forall i, read_info bs = Ok i ->
   i_chroms i = map (fun ci => {| ci_name := fst ci; ci_id := snd ci;
                                  ci_len := match lookup (fst ci) sizes with Some l => l | None => 0 end |})
@@ -187,18 +190,16 @@ Proof. exact on_input_chroms. Qed.
 Print Assumptions C01_chrom_table_on_input.
 
 Theorem C01_query_on_input : forall fp o sizes inp bs,
-  opts_ok o -> input_fields_ok sizes inp -> Nlen bs < U64 ->
+  opts_ok o -> input_ok sizes inp -> Nlen bs < U64 ->
   bw_write fp o sizes inp = Ok bs \/ bw_write_multipass fp o sizes inp = Ok bs ->
-  NoDup (map fst (runs inp)) \/ o_sort_all o = true ->
   forall i infl c s e, read_info bs = Ok i -> In c (map fst inp) ->
   bw_interval infl bs i c s e = Ok (clip_filter s e (vals_of inp c)).
 Proof. exact on_input_query. Qed.
 Print Assumptions C01_query_on_input.
 
 Theorem C01_roundtrip_on_input : forall fp o sizes inp bs,
-  opts_ok o -> input_fields_ok sizes inp -> Nlen bs < U64 ->
+  opts_ok o -> input_ok sizes inp -> Nlen bs < U64 ->
   bw_write fp o sizes inp = Ok bs \/ bw_write_multipass fp o sizes inp = Ok bs ->
-  NoDup (map fst (runs inp)) \/ o_sort_all o = true ->
   forall i infl c len, read_info bs = Ok i -> In c (map fst inp) -> lookup c sizes = Some len ->
   bw_interval infl bs i c 0 len = Ok (filter (fun v => negb (boundary_zero len v)) (vals_of inp c)).
 Proof. exact on_input_roundtrip. Qed.
@@ -219,24 +220,19 @@ Proof.
 Qed.
 Print Assumptions C01_zero_length_boundary_refuted.
 
-(* Why "one run per chromosome" is a hypothesis: with the chromosome order check off, an input in
-   which chromosome "a" comes back after "b" is accepted, "a" keeps its id, the section list handed
-   to the index is no longer sorted, and the second run's value a:[20,30) is not returned by the
-   full-span read (replayed on the real code: notes/C01.md, F2) *)
+(* The split-chromosome input (chromosome "a" comes back after "b", order check off) used to be
+   accepted and to lose a:[20,30) on read (finding F2, confirmed on the real code); since /repo
+   6b10d42 both writers refuse it *)
 Definition split_opts : opts :=
   {| o_compress := false; o_ips := 2; o_bs := 2; o_izoom := 10; o_maxzooms := 2; o_manual := None; o_sort_all := false |}.
 Definition split_inp : list item :=
   let v a b := {| v_start := a; v_end := b; v_bits := 1065353216 |} in
   [([97], v 0 10); ([98], v 0 5); ([98], v 5 6); ([98], v 7 8); ([97], v 20 30)].
-Theorem C01_split_chromosome_refuted :
-  exists bs i, bw_write ieee split_opts [([97], 100); ([98], 50)] split_inp = Ok bs /\ read_info bs = Ok i
-    /\ length (vals_of split_inp [97]) = 2%nat
-    /\ bw_interval (fun x => x) bs i [97] 0 100 = Ok [{| v_start := 0; v_end := 10; v_bits := 1065353216 |}].
-Proof.
-  eexists. eexists. split; [vm_compute; reflexivity|]. split; [vm_compute; reflexivity|]. split; [reflexivity|].
-  vm_compute. reflexivity.
-Qed.
-Print Assumptions C01_split_chromosome_refuted.
+Theorem C01_split_chromosome_refused :
+  bw_write ieee split_opts [([97], 100); ([98], 50)] split_inp = Err E_CHROM_SPLIT
+  /\ bw_write_multipass ieee split_opts [([97], 100); ([98], 50)] split_inp = Err E_CHROM_SPLIT.
+Proof. split; vm_compute; reflexivity. Qed.
+Print Assumptions C01_split_chromosome_refused.
 
 (* Non-vacuity: a two-chromosome, three-section input (items_per_slot = 2: chromosome "a" has
    three values = two sections, "b" one) meets every hypothesis, with both writers; and the reader
@@ -257,10 +253,9 @@ Example C01_example_hyps :
 Proof.
   assert (Hr : runs ex_inp = [([97], ex_a); ([98], ex_b)]) by reflexivity.
   split; [unfold opts_ok; cbn; lia|]. split.
-  - unfold input_ok. rewrite Hr. cbn [map fst]. split.
-    + repeat constructor; intros H; repeat (destruct H as [H|H]; try discriminate); assumption.
-    + split; [repeat constructor; try discriminate; reflexivity|]. split; [reflexivity|].
-      split; [unfold ex_sizes; repeat constructor|unfold ex_inp, ex_a, ex_b; cbn [map app]; repeat constructor].
+  - unfold input_ok. rewrite Hr. cbn [map fst].
+    split; [repeat constructor; try discriminate; reflexivity|]. split; [reflexivity|].
+    split; [unfold ex_sizes; repeat constructor|unfold ex_inp, ex_a, ex_b; cbn [map app]; repeat constructor].
   - split; [exact Hr|]. split; eexists; (split; [vm_compute; reflexivity|reflexivity]).
 Qed.
 Example C01_example_run :
